@@ -71,7 +71,10 @@ fn check_program(env: &Environment, prog: &gen::Program, depth: usize, acc: &Acc
     for (ci, rctx) in refint::contexts().into_iter().enumerate() {
         l.evals += 1;
         let ectx = Value::from_pairs(rctx.iter().map(|(k, v)| (k.clone(), refint::to_engine(v))));
-        let got = catch(|| tmpl.render(ectx));
+        let got = catch(|| tmpl.render(ectx.clone()));
+        // the same template and context a second time, right away, on the same environment and
+        // thread: whatever the first render left behind (pooled contexts, closures) must not show
+        let again = catch(|| tmpl.render(ectx));
         let want = refint::Interp::new(rctx).run(&prog.nodes);
         let mut ks = vec![];
         kinds(&prog.nodes, &mut ks);
@@ -83,6 +86,16 @@ fn check_program(env: &Environment, prog: &gen::Program, depth: usize, acc: &Acc
             detail,
             replay: json!({"depth": depth, "index": prog.index, "ctx": ci, "source": src}),
         };
+        let same = match (&got, &again) {
+            (Ok(Ok(a)), Ok(Ok(b))) => a == b,
+            (Ok(Err(a)), Ok(Err(b))) => a.kind() == b.kind(),
+            (Err(_), Err(_)) => true,
+            _ => false,
+        };
+        if !same {
+            acc.fail(mk("second_render_differs", format!("first render {:?}, second render {:?}", got.as_ref().map(|r| r.as_ref().map_err(|e| e.to_string())), again.as_ref().map(|r| r.as_ref().map_err(|e| e.to_string())))));
+            continue;
+        }
         match (got, want) {
             (_, Err(RErr::Undefined(why))) => l.outcome(&format!("outside R: {}", why.split(' ').take(3).collect::<Vec<_>>().join(" "))),
             (Err(p), _) => acc.fail(mk("engine_panics", format!("{} at {}", p, last_panic_loc()))),
@@ -211,6 +224,60 @@ fn closure_family() -> Vec<gen::Program> {
     out
 }
 
+/// loop filters: the filter of a loop is evaluated before the loop's own frame exists, so `loop` and
+/// the other names in it are the enclosing ones - at every nesting depth and behind every construct
+fn loop_filter_family() -> Vec<gen::Program> {
+    use gen::Expr as E;
+    let v = |x: &'static str| E::Var(x);
+    let attr = |a: E, n: &'static str| E::Attr(Box::new(a), n);
+    let bin = |op: &'static str, a: E, b: E| E::Bin(op, Box::new(a), Box::new(b));
+    let filters: Vec<E> = vec![
+        bin(">", v("b"), attr(v("loop"), "index")),
+        bin("<", v("b"), attr(v("loop"), "length")),
+        attr(v("loop"), "first"),
+        E::Not(Box::new(attr(v("loop"), "last"))),
+        bin(">", v("b"), v("a")),
+        bin("==", v("b"), attr(v("loop"), "index0")),
+        bin("and", E::Test(Box::new(v("loop")), "defined"), bin(">", v("b"), E::Int(1))),
+        bin(">", bin("+", v("b"), v("x")), E::Int(2)),
+    ];
+    let inner = |f: &E, body_extra: Vec<Node>| Node::For {
+        targets: vec!["b"],
+        iter: v("xs"),
+        filter: Some(f.clone()),
+        recursive: false,
+        body: {
+            let mut b = vec![Node::Out(v("b")), Node::Text("/"), Node::Out(attr(v("loop"), "index")), Node::Text("of"), Node::Out(attr(v("loop"), "length")), Node::Text(",")];
+            b.extend(body_extra);
+            b
+        },
+        else_: Some(vec![Node::Text("-")]),
+    };
+    let mut out = vec![];
+    for f in &filters {
+        for wrap in 0..6 {
+            let lp = inner(f, vec![]);
+            let nested: Vec<Node> = match wrap {
+                0 => vec![lp],
+                1 => vec![Node::With(vec![("q", E::Int(1))], vec![lp])],
+                2 => vec![Node::If(v("xs"), vec![lp], None)],
+                3 => vec![Node::SetBlock("cap", vec![lp]), Node::Out(v("cap"))],
+                4 => vec![Node::For { targets: vec!["m1"], iter: E::List(vec![E::Int(1)]), filter: None, recursive: false, body: vec![lp], else_: None }],
+                _ => vec![Node::FilterBlock("upper", vec![lp])],
+            };
+            // inside an outer loop over xs, inside two, and (control) at the top
+            let one = Node::For { targets: vec!["a"], iter: v("xs"), filter: None, recursive: false, body: { let mut b = vec![Node::Text("[")]; b.extend(nested.clone()); b.push(Node::Text("]")); b }, else_: None };
+            let two = Node::For { targets: vec!["a"], iter: E::List(vec![E::Int(1), E::Int(2)]), filter: Some(bin(">", v("a"), E::Int(0))), recursive: false, body: vec![Node::Text("<"), one.clone(), Node::Text(">")], else_: None };
+            for nodes in [vec![one], vec![two], nested] {
+                let mut pieces = vec![];
+                gen::to_pieces(&nodes, &mut pieces);
+                out.push(gen::Program { index: 1_000_000 + out.len() as u64, nodes, pieces });
+            }
+        }
+    }
+    out
+}
+
 /// loop object fields for every iterated sequence kind, computed directly
 fn loop_object_clause(acc: &Acc) {
     let env = Environment::new();
@@ -286,7 +353,8 @@ pub fn main(args: Args) -> i32 {
         if j["kind"] == "loop_object" {
             loop_object_clause(&acc);
         } else if j["depth"] == 0 {
-            let prog = closure_family().swap_remove(j["index"].as_u64().unwrap() as usize);
+            let idx = j["index"].as_u64().unwrap();
+            let prog = if idx >= 1_000_000 { loop_filter_family().swap_remove((idx - 1_000_000) as usize) } else { closure_family().swap_remove(idx as usize) };
             println!("source: {}", prog.source());
             let mut l = Local::default();
             check_program(&Environment::new(), &prog, 0, &acc, &mut l);
@@ -313,6 +381,9 @@ pub fn main(args: Args) -> i32 {
         let fam = closure_family();
         acc.count("programs_closure_family", fam.len() as u64);
         par_items(&fam, &acc, |_, p, l| check_program(&Environment::new(), p, 0, &acc, l));
+        let fam2 = loop_filter_family();
+        acc.count("programs_loop_filter_family", fam2.len() as u64);
+        par_items(&fam2, &acc, |_, p, l| check_program(&Environment::new(), p, 0, &acc, l));
     }
     let run = |depth: usize, stride: u64| {
         let o = opts(depth);
@@ -341,7 +412,7 @@ pub fn main(args: Args) -> i32 {
             level: "exploration",
             tier: args.tier,
             seed: args.seed,
-            rule: format!("every program of the depth-1 and depth-2 spaces of G (single template, loop controls){} x 3 contexts rendered by the engine and by the reference interpreter R (independent tree walker over its own value type: scoping per construct, per-iteration loop scope, macro closures with definition-frame values, argument binding with defaults and keywords, call blocks, loop recursion, for-else, loop filters, unpacking, break/continue); oracle: identical output, or both fail; plus the loop object: every field (index, index0, revindex, revindex0, first, last, length, previtem, nextitem) printed in every iteration for 11 iterated sequence kinds x lengths 0..4 against directly computed values; plus the closure family (depth label d0): 4 name/outer-binding cases x 4 assignment forms x 16 enclosing constructs (bare, if/else arms taken and not, for/else with 0 or 1 iterations, loop else bodies reading names the loop bound as target / in its body / under a rejecting filter, with, filter, set block, autoescape, nested ifs) x 4 holders (macro called with both truth values, outer value changed after declaration, call block in a loop, macro in a macro), each reading the name inside the construct and, in one of two variants, after it. distinct non-trivial = (program, context) pairs on which engine and reference agree on a successful render", if args.tier == Tier::Thorough { " and every 41st program of depth 3" } else { "" }),
+            rule: format!("every program of the depth-1 and depth-2 spaces of G (single template, loop controls){} x 3 contexts rendered by the engine and by the reference interpreter R (independent tree walker over its own value type: scoping per construct, per-iteration loop scope, macro closures with definition-frame values, argument binding with defaults and keywords, call blocks, loop recursion, for-else, loop filters, unpacking, break/continue); oracle: identical output, or both fail, and an immediate second render of the same template and context gives the same result; plus the loop object: every field (index, index0, revindex, revindex0, first, last, length, previtem, nextitem) printed in every iteration for 11 iterated sequence kinds x lengths 0..4 against directly computed values; plus the closure family (depth label d0): 4 name/outer-binding cases x 4 assignment forms x 16 enclosing constructs (bare, if/else arms taken and not, for/else with 0 or 1 iterations, loop else bodies reading names the loop bound as target / in its body / under a rejecting filter, with, filter, set block, autoescape, nested ifs) x 4 holders (macro called with both truth values, outer value changed after declaration, call block in a loop, macro in a macro), each reading the name inside the construct and, in one of two variants, after it; plus the loop-filter family: 8 filter expressions naming `loop`, the enclosing target or outer names x 6 constructs around the filtered loop x (inside one loop, inside two, at the top). distinct non-trivial = (program, context) pairs on which engine and reference agree on a successful render", if args.tier == Tier::Thorough { " and every 41st program of depth 3" } else { "" }),
             exhaustive: true,
             bound: json!({"depth_full": 2}),
             assumptions: vec![
